@@ -6,6 +6,7 @@ import RbV.Model.QGramIter
 import RbV.Model.QGramMatches
 import RbV.Model.QGramIndex
 import RbV.Model.QGramExact
+import RbV.Model.LcskFwd
 /-! Driver for property C19 (line protocol → verdict).
 
 ```
@@ -237,6 +238,11 @@ def lcsCheck (ms : List M) (k : Nat) (out : String) : Option String × List Stri
         if cs ≠ opt then (some s!"reject lcskpp-chain-not-optimal chain-score={cs} optimum={opt}", [])
         else if sc ≠ opt then (some s!"diff score {opt}", [])
         else (none, (if path.length ≥ 2 then ["chain>=2"] else []) ++
+              -- internal state: the `dp_vector` scores against the recurrence they implement (Thm.C19.dp_cell_is_best_chain_ending);
+              -- not fixed by the property, so a difference is only a drift tag
+              (match (outField out "dp").bind parseNatList with
+               | some dp => if dp = dpScores ms k then ["dp-cells-agree"] else ["drift-dp-cells"]
+               | none => ["dp-not-reported"]) ++
               (if (pathMatches ms path).zip ((pathMatches ms path).drop 1) |>.any (fun (a, b) => cont a b && !nonov k a b) then ["has-cont"] else []) ++
               (if (pathMatches ms path).zip ((pathMatches ms path).drop 1) |>.any (fun (a, b) => nonov k a b) then ["has-jump"] else []) ++
               (if ms.length ≤ 12 then ["enum-checked"] else []))
